@@ -26,6 +26,15 @@ func init() {
 		"imin":  specMinMax(true),
 		"imax":  specMinMax(false),
 		"byteat": func(env *SpecEnv, args []Value) Value { return Sc{byteAt(env, args[0], intArg(args[1])), tU8} },
+		// vsum(s): total length of the slices in s; vtotal(s, lo, hi): of s[lo:hi]
+		"vsum": func(env *SpecEnv, args []Value) Value {
+			row, off, ln := lenRow(env, args[0])
+			return Sc{vtotalApp(row, off, Add(off, ln)), tInt}
+		},
+		"vtotal": func(env *SpecEnv, args []Value) Value {
+			row, off, _ := lenRow(env, args[0])
+			return Sc{vtotalApp(row, Add(off, intArg(args[1])), Add(off, intArg(args[2]))), tInt}
+		},
 		// oc16(x): x mod 65535 for a uint64 x; opaque unless revealed
 		"oc16": func(env *SpecEnv, args []Value) Value {
 			x := args[0].(Sc)
@@ -71,6 +80,9 @@ func byteRow(env *SpecEnv, b Value) (row, off, ln *Term) {
 }
 
 func wsumApp(row, lo, hi *Term) *Term {
+	if row.Op == "ite" {
+		return Ite(row.Args[0], wsumApp(row.Args[1], lo, hi), wsumApp(row.Args[2], lo, hi))
+	}
 	return App("spec|wsum", BVSort(64), row, lo, hi)
 }
 
@@ -119,6 +131,53 @@ func init() {
 			Implies(And(SLt(lo, hi), small, Not(odd)), Eq(app, Add(wsumApp(row, lo, last2), b16(last2)))),
 			Implies(And(SLe(lo, hi), small), ULe(app, Mul(BVi(65535, 64), LShr(Add(n, BVi(1, 64)), BVi(1, 64))))),
 		}...)
+	}
+}
+
+// ---- vtotal: total length of a range of a slice of slices ----
+//
+// vtotal(lenrow, lo, hi) = Σ lenrow[k], lo <= k < hi, where lenrow is the "len" leaf row of
+// the backing array of a [][]T. Defined by peeling at either end; a store outside the
+// range does not change it.
+
+func vtotalApp(row, lo, hi *Term) *Term {
+	if row.Op == "ite" {
+		return Ite(row.Args[0], vtotalApp(row.Args[1], lo, hi), vtotalApp(row.Args[2], lo, hi))
+	}
+	return App("spec|vtotal", BVSort(64), row, lo, hi)
+}
+
+func lenRow(env *SpecEnv, v Value) (row, off, ln *Term) {
+	sl, ok := v.(SlV)
+	if !ok {
+		specErr("vsum/vtotal needs a slice of slices, got %T", v)
+	}
+	et := sl.Ty.Underlying().(*types.Slice).Elem()
+	if _, isSl := et.Underlying().(*types.Slice); !isSl {
+		specErr("vsum/vtotal needs a slice of slices")
+	}
+	name := "E|" + typeKey(et) + "|len"
+	srt := ArraySort(RefSort, ArraySort(IntSort, IntSort))
+	return Select(env.st.heap(name, srt), sl.Arr), sl.Off, sl.Len
+}
+
+func init() {
+	specAxioms["spec|vtotal"] = func(app *Term) []*Term {
+		row, lo, hi := app.Args[0], app.Args[1], app.Args[2]
+		one := BVi(1, 64)
+		small := And(SLe(BVi(0, 64), lo), SLe(hi, BVi(1<<42, 64)))
+		out := []*Term{
+			Implies(SLe(hi, lo), Eq(app, BVi(0, 64))),
+			Implies(And(SLt(lo, hi), small), Eq(app, Add(vtotalApp(row, lo, Sub(hi, one)), Select(row, Sub(hi, one))))),
+			Implies(And(SLt(lo, hi), small), Eq(app, Add(Select(row, lo), vtotalApp(row, Add(lo, one), hi)))),
+			// lengths stored in a Go heap are non-negative; totals are assumed below 2^50
+			And(SLe(BVi(0, 64), app), SLe(app, BVi(1<<50, 64))),
+		}
+		if row.Op == "store" {
+			i := row.Args[1]
+			out = append(out, Implies(Or(SLt(i, lo), SLe(hi, i)), Eq(app, vtotalApp(row.Args[0], lo, hi))))
+		}
+		return out
 	}
 }
 
